@@ -137,3 +137,25 @@ def o9(ctx):
                 ok = marks[0]["result"] in ok_cas_facts(fs) and unl[0]["result"] in ok_cas_facts(fs)
                 what = "zeroing" if is_raw_write(e) else "hand-out (Ok return)"
                 yield Ob(key_of("C12-O9", b.path, "after-both-cas:%s" % ("zero" if is_raw_write(e) else "ret")), ok, "%s dominated by mark-success and unlink-success edges" % what, ctx.loc(e))
+
+
+@rule("C12-O10", "C12", 4, "the crate's own `unsafe impl Send / Sync` must not let a user type cross threads that cannot: an impl for a generic handle bounds every type "
+      "parameter of the handle by the same auto trait (a handle stores, hands out and drops its `T`; without `T: Send` two threads can race on an `Rc` held in an "
+      "`Owned<Rc<_>, sync::Arena>` using only safe methods)", configs=("memmap",))
+def o10(ctx):
+    n = 0
+    for i in ctx.facts.impls:
+        if i["trait"] not in ("std::marker::Send", "std::marker::Sync") or not i["unsafe"] or i["negative"]:
+            continue
+        n += 1
+        auto = i["trait"].split("::")[-1]
+        m = re.search(r"<(.*)>$", i["self_ty"])
+        params = [p.strip() for p in m.group(1).split(",")] if m else []
+        params = [p for p in params if re.match(r"^[A-Z]\w*$", p)]
+        bounded = set(re.findall(r"TraitPredicate\(<(\w+) as std::marker::%s>, polarity:Positive\)" % auto, " ".join(i.get("preds", []))))
+        missing = [p for p in params if p not in bounded]
+        yield Ob(key_of("C12-O10", i["self_ty"], "unsafe-impl-%s-bounds-every-parameter" % auto), not missing,
+                 "unsafe impl %s for %s: %s" % (auto, i["self_ty"], "every type parameter is bounded by %s" % auto if not missing else
+                                                "parameter(s) %s carry no `%s` bound" % (missing, auto)), "%s:%d" % (i["file"], i["line"]),
+                 trivial=not params)
+    yield Ob(key_of("C12-O10", "crate", "unsafe-auto-trait-impls"), n >= 4, "%d unsafe impl Send / Sync in the crate" % n, "rarena-allocator/src/lib.rs")
